@@ -537,7 +537,7 @@ def main(tier, seed):
             extra.append(('typed members #%d' % b, typed_member_world(rng, S, ET), []))
         except (Exception, SystemExit) as e:      # noqa
             ck.failing_input('the scanner fails on structures with callback-typed members and types of an included namespace: %r' % (e,), dict(world=b))
-    for what, xml, incs in extra:
+    for what, xml, incs in [e_[:3] for e_ in extra]:
         root = ET.fromstring(xml)
         ck.count_case(dict(world=what), nontrivial=False, kind='linted:' + what.split('#')[0].strip())
         for msg, where in lint(root, S, set()):
